@@ -515,8 +515,11 @@ func (x *c16lRun) write(key string, val int) uint64 {
 }
 
 func (x *c16lRun) caughtUp(nodes ...int) {
-	l := x.c.Leader()
 	x.poll("nodes caught up with the leader and in contact", func() bool {
+		l := x.c.Leader()
+		if l < 0 {
+			return false
+		}
 		li := x.c.nodes[l].store().fsmIdx.Load()
 		for _, i := range nodes {
 			if i == l {
@@ -574,7 +577,18 @@ func (x *c16lRun) jobA() {
 	}
 	x.caughtUp(0, 1, 2)
 	names, _ = x.roles()
-	x.product("restarted", names, []int{0, 1, 2}, nil, nil)
+	// the restarted nodes first: the leader's strong reads are commands, and the first
+	// command a restarted node receives ends the state this condition is about
+	var order []int
+	for i := range c.nodes {
+		if i != l {
+			order = append(order, i)
+			if got := c.nodes[i].store().raftTn.CommandCommitIndex(); got != 0 {
+				x.fail("restarted n%d has already received command %d", i, got)
+			}
+		}
+	}
+	x.product("restarted", names, append(order, l), nil, nil)
 
 	// behind: the others receive commands but are not told that they are committed
 	var others []int
@@ -647,6 +661,7 @@ func (x *c16lRun) jobB() {
 			others = append(others, i)
 		}
 	}
+	isolatedAt := time.Now()
 	c.net.Isolate(l)
 	x.fresh = [3]bool{}
 	// nothing sent before the partition is still on its way; the others are out of contact
@@ -670,8 +685,18 @@ func (x *c16lRun) jobB() {
 	case <-time.After(2 * c16lWait):
 		x.fail("reads on the isolated leader still blocked %v after it gave up", 2*c16lWait)
 	}
+	deposedAt := time.Now()
 	x.product("leader-deposed", names, []int{0, 1, 2}, nil, nil)
 
+	// The deposed leader's replication goroutines of its old term are still asleep in
+	// their retry backoff (raft: each sleep is at most as long as all earlier ones
+	// together, i.e. at most as long as the partition has lasted). Each wakes up once
+	// more and sends one last AppendEntries of the old term. Heal only after that: a
+	// late message of the old term arriving in the middle of the next term's first
+	// leader verification costs the new leader its leadership (seen while building this
+	// part: "peer has newer term" / "new leader elected, stepping down", then 5 s without
+	// a leader) - legitimate asynchrony, but not what the "healed" condition is about.
+	x.poll("old-term retries of the deposed leader have run out", func() bool { return time.Since(deposedAt) > deposedAt.Sub(isolatedAt)+time.Second })
 	if os.Getenv("VERIF_C16_DEBUG") != "" {
 		for i := range c.nodes {
 			i := i
@@ -704,12 +729,17 @@ func c16lJob(t *testing.T, r *kit.Run, job string, rotate bool, filter *c16lCase
 	if err != nil {
 		return fmt.Errorf("harness: cluster: %w", err)
 	}
-	defer c.Close()
+	defer vxClose(c)
 	x := &c16lRun{t: t, r: r, c: c, job: job, filter: filter}
 	if rotate {
 		// the other voter leads
+		term := c.Term(0)
 		if err := c.Stepdown(0, 1); err != nil {
 			return fmt.Errorf("harness: leadership transfer: %w", err)
+		}
+		// the old leader keeps leading until it hears of the new term
+		if _, err := c.WaitLeader(nil, term, c16lWait); err != nil {
+			return err
 		}
 		if _, err := vxSettle(c, c16lVoter, c16lWait); err != nil {
 			return err
@@ -757,6 +787,13 @@ func TestVerif_C16_live(t *testing.T) {
 	jobs := []job{{"A", false}, {"B", false}, {"W", false}}
 	if r.Thorough() {
 		jobs = []job{{"A", false}, {"B", false}, {"W", false}, {"A-rotated", true}, {"B-rotated", true}, {"W-rotated", true}, {"A-2", false}, {"B-2", false}, {"A-rotated-2", true}, {"B-rotated-2", true}}
+	}
+	if js := os.Getenv("VERIF_C16_JOBS"); js != "" {
+		// development aid: VERIF_C16_JOBS="B B-rotated" runs just these jobs
+		jobs = nil
+		for _, n := range strings.Fields(js) {
+			jobs = append(jobs, job{n, strings.Contains(n, "rotated")})
+		}
 	}
 	var filter *c16lCase
 	if rp := kit.Replay(); rp != nil {
